@@ -19,13 +19,15 @@ B == {In(l[1], l[2], 20, sub, "filler", cut) : l \in Lens, sub \in Subs, cut \in
 C == {In(0, 3, 20, 4, b, "no") : b \in {"v0", "v1", "v2"}}
 \* bencoded bodies, length computed from the body
 D == {In(-1, 0, 20, sub, b, cut) : sub \in {0, 1, 2}, b \in BencBodies, cut \in {"no", "mid"}}
+\* ... and every known key with every unexpected value shape
+D2 == UNION {{In(-1, 0, 20, sub, b, "no") : b \in KVBodies(sub)} : sub \in {0, 1, 2}}
 \* streams that end inside the prefix or right after it / after the id
 E == {In(l[1], l[2], id, 0, "filler", cut) : l \in {<<0, 1>>, <<0, 5>>, <<0, 13>>, <<16, 1>>},
                                               id \in {0, 4, 7, 14, 20}, cut \in {"inlen", "afterlen", "afterid"}}
 
 \* a cut in the middle needs a frame with at least one byte
 Sane(i) == i.cut = "mid" => (Auto(i) \/ (~TooBig(i) /\ FLen(i) >= 1))
-MCInputs == {i \in A \cup B \cup C \cup D \cup E : Sane(i)}
+MCInputs == {i \in A \cup B \cup C \cup D \cup D2 \cup E : Sane(i)}
 
 \* print one case per terminal state
 Emit == phase = "done" =>
